@@ -13,8 +13,8 @@ def _known(pattern):
 def _args(n, extra=()):
     def f(seed):
         a = ["-seed", seed, "-n", n] + list(extra)
-        if _known("C13-echo6-odd-chunk"):
-            a += ["-odd6"]
+        # IPv6 requests with odd-length non-final views (the shape of the fixed finding
+        # C13-echo6-odd-chunk) are generated unconditionally by the driver
         if _known("C13-split-header"):
             a += ["-splithdr"]
         return a
@@ -27,15 +27,14 @@ SPEC = dict(
     args=lambda tier, seed: _args(100)(seed) if tier == "quick" else _args(400, ["-all"])(seed),
     search_args=lambda seed: _args(150)(seed),
     shard=400, timeout=1500,
-    patterns={2: "C13-echo6-odd-chunk", 3: "C13-split-header"},
-    rule="a real stack (netx.NewNet: IPv4 + IPv6, one recording NIC, two addresses per family) is pinged: boundary payload lengths (41 values in 0..1472, incl. the 68-byte IPv4 id threshold; thorough: every length 0..1472) for IPv4 and IPv6 as one view and split into views (first view holds the ICMP header; IPv4 splits at odd and even offsets, IPv6 at even ones), then per family n seeded random requests (length 0..1472, 1/3 below 80; identifier / sequence from {0,1,0x7fff,0x8000,0xffff,...} or random; payload random bytes, zeros, 0xff or arithmetic runs; 4 peers, 2 owned destinations) alternating single / multi view; malformed stream: every ICMP length 0..7, 16 other ICMP types per family, wrong request checksum, non-zero code, destinations that are foreign / unassigned / broadcast / multicast / zero, other protocol numbers, link-layer padding behind the datagram, IPv4 options (IHL 6..15), inconsistent IP length fields, a lone fragment; requests sent as two IPv4 fragments (in order and reversed, fragments themselves split into views, some to foreign addresses); gated bursts of 1..30 requests on one endpoint (the link endpoint's OnFrame hook holds the replier goroutine after every reply, the driver releases it with probability 0..7/8 between arrivals, so the exact interleaving of arrivals and replier iterations is part of the case: requests beyond 10 waiting are dropped); free-running bursts of 1..30 (half of them under GOMAXPROCS(1)) closed by sentinel requests; IPv6 back-to-back requests. IPv4 single-shot cases are closed by a sentinel request through the same FIFO. corr: the model's packets equal the observed frames byte for byte (whole IP packet; the IPv4 identification is read from the frame where the code takes it from its counter; free-running bursts: the frames are the model's replies to an order-preserving sub-list of the requests containing each of the first 10). spec: RFC 792 / 4443 monitor with its own one's-complement sum: at most one reply, only to an echo request to an owned address, src/dst swapped, type/code, identifier+sequence+payload equal, ICMP (pseudo-header for v6) and IP header checksums verify, total length, every well-formed request answered when fewer than ten are pending. tag: 1/2 IPv4 answered single / multi view, 3 IPv4 not answered, 4/5/6 same for IPv6, 7 fragments, 8/9 gated burst without / with a drop, 10 free burst; distinct = distinct case lines",
+    patterns={3: "C13-split-header"},   # code 2 was C13-echo6-odd-chunk (fixed by /repo 1404d7f): not reused
+    rule="a real stack (netx.NewNet: IPv4 + IPv6, one recording NIC, two addresses per family) is pinged: boundary payload lengths (41 values in 0..1472, incl. the 68-byte IPv4 id threshold; thorough: every length 0..1472) for IPv4 and IPv6 as one view and split into views (first view holds the ICMP header; IPv4 and IPv6 splits at odd and even offsets), an IPv6 odd-view stream that is always on (n/2 requests whose echo data arrives in views of which a non-final one has odd length - the shape of the fixed finding C13-echo6-odd-chunk: data in views of 3 + 4 bytes, 1 + 1 + 1 (+ rest), a view of exactly the 48 header bytes followed by an odd data view, all data views odd, random splits kept when a non-final data view is odd; data length 2..1452), then per family n seeded random requests (length 0..1472, 1/3 below 80; identifier / sequence from {0,1,0x7fff,0x8000,0xffff,...} or random; payload random bytes, zeros, 0xff or arithmetic runs; 4 peers, 2 owned destinations) alternating single / multi view; malformed stream: every ICMP length 0..7, 16 other ICMP types per family, wrong request checksum, non-zero code, destinations that are foreign / unassigned / broadcast / multicast / zero, other protocol numbers, link-layer padding behind the datagram, IPv4 options (IHL 6..15), inconsistent IP length fields, a lone fragment; requests sent as two IPv4 fragments (in order and reversed, fragments themselves split into views, some to foreign addresses); gated bursts of 1..30 requests on one endpoint (the link endpoint's OnFrame hook holds the replier goroutine after every reply, the driver releases it with probability 0..7/8 between arrivals, so the exact interleaving of arrivals and replier iterations is part of the case: requests beyond 10 waiting are dropped); free-running bursts of 1..30 (half of them under GOMAXPROCS(1)) closed by sentinel requests; IPv6 back-to-back requests. IPv4 single-shot cases are closed by a sentinel request through the same FIFO. corr: the model's packets equal the observed frames byte for byte (whole IP packet; the IPv4 identification is read from the frame where the code takes it from its counter; free-running bursts: the frames are the model's replies to an order-preserving sub-list of the requests containing each of the first 10). spec: RFC 792 / 4443 monitor with its own one's-complement sum: at most one reply, only to an echo request to an owned address, src/dst swapped, type/code, identifier+sequence+payload equal, ICMP (pseudo-header for v6) and IP header checksums verify, total length, every well-formed request answered when fewer than ten are pending. tag: 1/2 IPv4 answered single / multi view, 3 IPv4 not answered, 4/5/6 same for IPv6, 11 IPv6 answered with an odd-length non-final data view, 7 fragments, 8/9 gated burst without / with a drop, 10 free burst; distinct = distinct case lines",
     trusted_base=[KERNEL, CORR_TB, "Print Assumptions: every C13 theorem is closed under the global context (no axioms)",
                   "modelled, not verified: protocol/network/ipv4/icmp.go (handleICMP, echoRequests channel, echoReplier, sendPing4), protocol/network/ipv6/icmp.go (handleICMP echo branch, icmpChecksum), the inbound path NIC.DeliverNetworkPacket -> ipv4/ipv6 HandlePacket (IsValid, TrimFront, CapLength; reassembly only for two tiling fragments) and ipv4/ipv6 WritePacket (hand-written Gallina model Model/Echo.v on top of Model/HdrIP.v and Model/Checksum.v, tied by the differential run on whole emitted packets)",
                   "the Go channel (FIFO, capacity 10, non-blocking send) and the single replier goroutine are modelled as a list and the ops Arrive / Drain; the gated-burst cases validate exactly that (arrival and reply events in their real order), the free-running ones only what is schedule independent",
                   "driver: sentinel requests delimit IPv4 cases (sound because requests of one endpoint pass through one FIFO channel and one goroutine); the driver's own occupancy count is used only to pick wait times; a panic inside the replier goroutine cannot be recovered by the driver and would show up as a driver crash"],
     assumptions=["bytes are 0..255 and a message is at most 65535 bytes long (views_ok)",
                  "positive theorems are about messages whose first view (as handed up by the link endpoint) holds the ICMP header (6 bytes for IPv4, 8 for IPv6): is_echo_request4/6; without it the request is ignored (C13_echo_split_header_refuted)",
-                 "the IPv6 checksum clause assumes every non-final view of the echo data has even length (C13_echo6_odd_chunk_refuted otherwise)",
                  "NIC address filter: exact-match endpoints only (no promiscuous mode, subnets, forwarding: property C09)",
                  "the request checksum is not verified by the code (mirrored in the model; the monitor does not require an answer to a corrupted request, nor forbid one)"],
 )
